@@ -15,14 +15,14 @@ PY = "/venv/bin/python"
 # property -> (technique, decided, undecided, design section)
 CLAIMS_C04 = (
         "linear normal forms + dominance over XBuffer.allocate/grow/free (local obligations of an inductive free-list invariant)",
-        "Decides the local obligations A0-A8, G-1..G-5, F-0..F-5 on the source of context.py: round-up idiom of _align, returned offset = round-up(chunk.start, alignment), fit guard implies offset+size<=chunk.end for a chunk of the free list, served bytes leave the list before returning, growth copies every old byte at offset 0 before swapping storage, the new free range is exactly [old,new), freed range is [offset,offset+size), sorted insertion, merge pass; _new_buffer yields `capacity` bytes in every buffer kind; copy_to_native slice extents (rule B1). free() is evaluated on every order type of free list and freed region (FM, lists of up to 4/6 chunks): the result is the sorted, fully coalesced list with exactly the freed bytes added.",
+        "Decides the local obligations A0-A8, G-1..G-5, F-0..F-5 on the source of context.py: round-up idiom of _align, returned offset = round-up(chunk.start, alignment), fit guard implies offset+size<=chunk.end for a chunk of the free list, served bytes leave the list before returning, growth copies every old byte at offset 0 before swapping storage, the new free range is exactly [old,new), freed range is [offset,offset+size), sorted insertion, merge pass; _new_buffer yields `capacity` bytes in every buffer kind; copy_to_native slice extents (rule B1). free() is evaluated on every order type of free list and freed region (FM, lists of up to 4/6 chunks): the result is the sorted, fully coalesced list with exactly the freed bytes added. allocate() together with the real grow() is evaluated on every abstract allocator state (AM: up to 2/3 free chunks x {does not fit, fits exactly, fits} per chunk x alignment on/off x last chunk at the end or not x growth policy {request > capacity, grow_step one step suffices / does not suffice, doubling} x refused enlargement) and compared, as polynomials, with a first-fit reference model: returned offset, free list, capacity, number and extent of growth copies; a refused enlargement leaves the allocator unchanged. The shape-specific obligations A1-A7 are kept as diagnostics.",
         "The inductive invariant (pairwise disjoint free chunks inside [0,capacity) disjoint from live regions) is a paper argument in DESIGN.md 4.C04 that uses exactly these obligations plus FM for free(); histories, concrete byte images and the power-of-two precondition on default_alignment are not decided.",
         "4.C04",
     )
 CLAIMS_C12 = (
         "linear normal forms, guard equivalence, may-be-empty typestate of the free list, structural first-fit scan rules",
-        "Decides on the source of context.py: the fit guard is equivalent (not merely sufficient) to offset+size<=chunk.end, the scan iterates self.chunks in list order and returns at the first fit, no growth before/inside the scan, every retry is preceded by growth with the same request, capacity is only ever increased, free cannot raise (no fixed-position index of a possibly empty list, no raise/assert/remove), touching chunks merge (non-strict overlaps, min/max merge), served bytes leave the free list exactly, only empty chunks are removed, get_free sums end-start over the list. free() is evaluated on every order type (FM): sorted, fully coalesced, leak-free, never raising, get_free accounting - i.e. step agreement of free with the first-fit/coalescing specification for every list of up to 4 (quick) / 6 (thorough) chunks.",
-        "Agreement with a first-fit model over whole HISTORIES of allocate/grow/free (only free is evaluated as a whole, on every order type within the list-length bound; allocate and grow are decided through their local obligations), lists longer than the bound, and the recursion depth of the retry are not decided.",
+        "Decides on the source of context.py: the fit guard is equivalent (not merely sufficient) to offset+size<=chunk.end, the scan iterates self.chunks in list order and returns at the first fit, no growth before/inside the scan, every retry is preceded by growth with the same request, capacity is only ever increased, free cannot raise (no fixed-position index of a possibly empty list, no raise/assert/remove), touching chunks merge (non-strict overlaps, min/max merge), served bytes leave the free list exactly, only empty chunks are removed, get_free sums end-start over the list. free() is evaluated on every order type (FM): sorted, fully coalesced, leak-free, never raising, get_free accounting - i.e. step agreement of free with the first-fit/coalescing specification for every list of up to 4 (quick) / 6 (thorough) chunks. allocate()+grow() agree with a first-fit reference model on every abstract allocator state (AM, see C04): lowest-addressed fit, exact consumption, growth only when nothing fits, growth amount per policy, retry until served.",
+        "Agreement with a first-fit model over whole HISTORIES of allocate/grow/free (each single step is evaluated on every abstract state within the list-length bound - FM for free, AM for allocate+grow - but sequences are not composed), lists longer than the bound, more than four consecutive growth steps, and comparisons the abstract states do not fix (reported as exit 2) are not decided.",
         "4.C12",
     )
 CLAIMS = {
